@@ -120,6 +120,16 @@ theorem finish_order_linear_extension (G : Graph τ ρ) (hG : WF G) (rk : τ →
       (finishOrder ls).Pairwise (fun a b => b ∉ G.parents a) :=
   finishOrder_complete G hG ls hl s h (executed_exactly_once G hG rk hrk ls hl s h h0)
 
+/-- in particular the finish order is a permutation of the task list: a complete hydro step
+executes exactly as many sweeps as there are tasks -/
+theorem finish_order_perm (G : Graph τ ρ) (hG : WF G) (rk : τ → Nat)
+    (hrk : ∀ p ∈ G.univ, ∀ c ∈ G.children p, rk p < rk c) (ls : List (Label τ))
+    (hl : ∀ l ∈ ls, labelTask l ∈ G.univ) (s : WState τ) (h : run G (init G) ls = some s)
+    (h0 : s.num = 0) : (finishOrder ls).Perm G.univ ∧ (finishOrder ls).length = G.univ.length := by
+  obtain ⟨h1, h2, _⟩ := finish_order_linear_extension G hG rk hrk ls hl s h h0
+  have hp : (finishOrder ls).Perm G.univ := (List.perm_ext_iff_of_nodup h1 hG.nodup).mpr h2
+  exact ⟨hp, hp.length_eq⟩
+
 /-- the counter protocol: `number_of_tasks` always equals the number of queued + running +
 releasing tasks; in particular it is not 0 while some task is still to be retired -/
 theorem counter_protocol (G : Graph τ ρ) (s : WState τ) (hs : Inv G s) :
